@@ -21,7 +21,7 @@ LEVEL = "model_checking"
 
 def run(ctx):
     thorough = ctx.tier == "thorough"
-    jobs = [("C16_sim", "simulate", 6000 if thorough else 600, 8 if thorough else 6)]
+    jobs = [("C16_sim", "simulate", 3000 if thorough else 600, 8 if thorough else 6)]
     res = qcommon.generate_parallel(ctx, jobs)
     beh = qcommon.merge(ctx, res["C16_sim"], "C16_sim")
     env = qcommon.cfg_env("C16_sim")
